@@ -54,11 +54,16 @@ def run(ctx):
     model.mc(SPEC, consts, ctx, "LFUCache", invariants=INVS, properties=PROPS, extra="ACTION_CONSTRAINT Bounded")
     neg = dict(consts, VictimRule='"max"')
     model.mc(SPEC, neg, ctx, "LFUCache_neg", invariants=INVS, properties=PROPS, extra="ACTION_CONSTRAINT Bounded", expect_violation=True)
-    g, _ = graphwalk.emit_graph(SPEC, model.cfg_text(consts, view="View", action_constraint="EmitBounded"),
-                                ctx, "LFUCache")
     adapter = LFUAdapter(cache_class())
-    stats = graphwalk.walk(g, adapter, ctx, "LFUCache", sig_fn=sig_fn, paths_per_state=2, history_ops=("clear", "popitem"))
-    ctx.note("walk %s" % stats)
+    # one graph per capacity, walked in parallel (the walk itself is a sequential breadth-first search)
+    from vlib import par
+    jobs = []
+    for cap in consts["Caps"].strip("{}").split(","):
+        cc = dict(consts, Caps="{%s}" % cap.strip())
+        g, _ = graphwalk.emit_graph(SPEC, model.cfg_text(cc, view="View", action_constraint="EmitBounded"), ctx, "LFUCache_cap" + cap.strip())
+        jobs.append((g, adapter, "LFUCache", dict(sig_fn=sig_fn, paths_per_state=2, history_ops=("clear", "popitem"))))
+    for stats in par.walks(ctx, jobs):
+        ctx.note("walk %s" % stats)
     ctx.exhaustive = True
     rnd = random.Random(ctx.seed * 7919 + 7)
     traces = []
